@@ -154,3 +154,12 @@ pub fn park() {
 pub fn yield_now() {
     rt::switch();
 }
+
+/// There is no clock in the simulated world: a sleep is a scheduling point (any other runnable
+/// task may run for any number of steps before the sleeper continues).
+pub fn sleep(_d: std::time::Duration) {
+    // tell the scheduler that this task gives way: while it sleeps every other runnable task
+    // gets the processor (a spin-wait with sleeps must not be able to starve the others)
+    shuttle_engine::runtime::execution::ExecutionState::request_yield();
+    rt::switch();
+}
